@@ -8,6 +8,9 @@ package main
 //	C15 <skip P|N|F|L|V> <skipvar> <within> # <pattern, prefix tokens> # <nvars> {mask cmp}* #
 //	    {part cls v ts}*  # {part mn first_id last_id count}*        (matches in emission order)
 //
+// family S (sparse rows, c15s.go): "C15 S <bare 0|1> <skip> ..", class code 5 = column c absent / NULL,
+// v = n = column v absent / NULL; with bare = 1 every output record is "part mn f l n bc bv".
+//
 // pattern tokens: L v | S p q | U p q | R min max p (max -1 = unbounded) | M k p1..pk (PERMUTE)
 import (
 	"fmt"
@@ -189,7 +192,38 @@ func (p *c15pat) uses(m map[int]bool) {
 
 type c15def struct{ mask, cmp int }
 
-type c15row struct{ part, cls, v, ts int }
+// nc / nvl: column c / v of the event: 0 = present, 1 = the key is absent, 2 = explicit nil (both NULL)
+type c15row struct{ part, cls, v, ts, nc, nvl int }
+
+// the event handed to the engine (sparse rows: family S, see c15s.go)
+func (r c15row) event(id int) map[string]any {
+	m := map[string]any{"id": id, "p": fmt.Sprintf("p%d", r.part), "ts": r.ts}
+	switch r.nc {
+	case 0:
+		m["c"] = string(c15classes[r.cls])
+	case 2:
+		m["c"] = nil
+	}
+	switch r.nvl {
+	case 0:
+		m["v"] = r.v
+	case 2:
+		m["v"] = nil
+	}
+	return m
+}
+
+// the row as the driver reads it: class code 5 = column c NULL, v = n = column v NULL
+func (r c15row) toks() string {
+	cls, v := strconv.Itoa(r.cls), strconv.Itoa(r.v)
+	if r.nc != 0 {
+		cls = "5"
+	}
+	if r.nvl != 0 {
+		v = "n"
+	}
+	return fmt.Sprintf("%d %s %s %d", r.part, cls, v, r.ts)
+}
 
 type c15case struct {
 	pat     *c15pat
@@ -201,6 +235,8 @@ type c15case struct {
 	rows    []c15row
 	noPart  bool // single partition and no PARTITION BY clause
 	allRows bool // ALL ROWS PER MATCH: the output rows carry the input columns (id) and MATCH_NUMBER
+	sparse  bool // family S: rows without column c / v (line prefix "C15 S <bare>")
+	bare    bool // family S, ONE ROW PER MATCH: MEASURES also c AS bc, v AS bv (bare columns of the last row)
 	tag     string
 }
 
@@ -242,7 +278,11 @@ func (c *c15case) sql() string {
 	if c.allRows {
 		sb.WriteString("ORDER BY ts MEASURES MATCH_NUMBER() AS mn ALL ROWS PER MATCH ")
 	} else {
-		sb.WriteString("ORDER BY ts MEASURES MATCH_NUMBER() AS mn, FIRST(id) AS f, LAST(id) AS l, COUNT(*) AS n ONE ROW PER MATCH ")
+		sb.WriteString("ORDER BY ts MEASURES MATCH_NUMBER() AS mn, FIRST(id) AS f, LAST(id) AS l, COUNT(*) AS n")
+		if c.bare {
+			sb.WriteString(", c AS bc, v AS bv")
+		}
+		sb.WriteString(" ONE ROW PER MATCH ")
 	}
 	switch c.skip {
 	case "P":
@@ -344,14 +384,32 @@ func (c *c15case) run() (string, error) {
 				bad = fmt.Sprint(r)
 				continue
 			}
-			outs = append(outs, fmt.Sprintf("%d %d %d %d %d", c.rows[f-1].part, mn, f, l, n))
+			o := fmt.Sprintf("%d %d %d %d %d", c.rows[f-1].part, mn, f, l, n)
+			if c.bare { // class code (5 = NULL, ? = anything else) and v (n = NULL)
+				bc, bv := "?", "?"
+				switch x := r["bc"].(type) {
+				case nil:
+					bc = "5"
+				case string:
+					if len(x) == 1 && strings.Contains(c15classes, x) {
+						bc = strconv.Itoa(strings.Index(c15classes, x))
+					}
+				}
+				if r["bv"] == nil {
+					bv = "n"
+				} else if x, ok := c15int(r["bv"]); ok {
+					bv = strconv.Itoa(x)
+				}
+				o += " " + bc + " " + bv
+			}
+			outs = append(outs, o)
 		}
 		flush()
 	})
 	st := s.Stream()
 	st.VerifCepLiftGuards()
 	for i, r := range c.rows {
-		st.VerifCepFeed(map[string]any{"id": i + 1, "p": fmt.Sprintf("p%d", r.part), "c": string(c15classes[r.cls]), "v": r.v, "ts": r.ts})
+		st.VerifCepFeed(r.event(i + 1))
 	}
 	s.Stop()
 	mu.Lock()
@@ -372,13 +430,20 @@ func (c *c15case) line(out string) string {
 	if w == 0 {
 		w = 3600000000000 // types.DefaultMatchWithin in ns
 	}
-	fmt.Fprintf(&sb, "C15 %s %d %d # %s # %d", sk, c.skipVar, w, c.pat.toks(), c.nv)
+	fam := ""
+	if c.sparse {
+		fam = "S 0 "
+		if c.bare && !c.allRows {
+			fam = "S 1 "
+		}
+	}
+	fmt.Fprintf(&sb, "C15 %s%s %d %d # %s # %d", fam, sk, c.skipVar, w, c.pat.toks(), c.nv)
 	for _, d := range c.defs {
 		fmt.Fprintf(&sb, " %d %d", d.mask, d.cmp)
 	}
 	sb.WriteString(" #")
 	for _, r := range c.rows {
-		fmt.Fprintf(&sb, " %d %d %d %d", r.part, r.cls, r.v, r.ts)
+		sb.WriteString(" " + r.toks())
 	}
 	sb.WriteString(" #")
 	if out != "" {
@@ -549,9 +614,11 @@ func runC15(tier string, seed uint64, o *Out) error {
 	rng := NewRNG(seed)
 	ncases, maxRows := 12000, 14
 	nk, maxPer, np3, np4 := 3000, 13, 40, 12
+	ns := 4000
 	if tier == "thorough" {
 		ncases, maxRows = 150000, 16
 		nk, maxPer, np3, np4 = 20000, 14, 400, 100
+		ns = 40000
 	}
 	type tagged interface {
 		c15runner
@@ -579,6 +646,15 @@ func runC15(tier string, seed uint64, o *Out) error {
 	}
 	for i := 0; i < np4; i++ {
 		cases = append(cases, c15permute(krng, 4))
+	}
+	// S: sparse rows (columns of DEFINE / MEASURES absent or NULL in some events)
+	srng := NewRNG(seed)
+	srng.s = srng.Next() ^ 0xC155BA25E
+	for _, c := range c15scorpus() {
+		cases = append(cases, c)
+	}
+	for i := 0; i < ns; i++ {
+		cases = append(cases, c15sparse(srng, maxRows))
 	}
 	lines := make([]string, len(cases))
 	errs := make([]error, len(cases))
